@@ -7,13 +7,13 @@ Open Scope Z_scope.
 
 Section Mono.
 Variable p : program.
-Variables tord bord : state -> node -> list node -> list node.
+Variables tord bord pord : state -> node -> list node -> list node.
 
-Notation mquery := (query_for_o p None tord bord).
-Notation mexecute := (execute_o p None tord bord).
-Notation meval := (eval_o p None tord bord).
-Notation mrepair := (repair_o p None tord bord).
-Notation mbackward := (backward_o p None tord bord).
+Notation mquery := (query_for_o p None tord bord pord).
+Notation mexecute := (execute_o p None tord bord pord).
+Notation meval := (eval_o p None tord bord pord).
+Notation mrepair := (repair_o p None tord bord pord).
+Notation mbackward := (backward_o p None tord bord pord).
 
 Definition mmono_query (f : nat) : Prop :=
   forall stk c fr n s o fr' m' s', mquery f stk c fr n s = Ok (o, fr', m', s') -> MonoR stk s s'.
@@ -29,7 +29,7 @@ Definition mmono_backward (f : nat) : Prop :=
   forall stk n s s', mbackward f stk n s = Ok s' -> ~ In n stk -> sverified s n -> MonoR stk s s'.
 
 Lemma mmono_tfc : forall f stk, mmono_query f ->
-  forall ts s s', mtfc p tord bord f stk ts s = Ok s' -> MonoR stk s s'.
+  forall ts s s', mtfc p tord bord pord f stk ts s = Ok s' -> MonoR stk s s'.
 Proof.
   intros f stk IHq. induction ts as [|t r IH]; intros s s' H; cbn [mtfc] in H.
   - inversion H. subst. apply MonoR_refl.
@@ -37,7 +37,7 @@ Proof.
     apply IHq in Eq. eapply MonoR_trans; [exact Eq|]. apply IH. exact H.
 Qed.
 Lemma mmono_bp : forall f stk, mmono_query f ->
-  forall ts s s', mbp p tord bord f stk ts s = Ok s' -> MonoR stk s s'.
+  forall ts s s', mbp p tord bord pord f stk ts s = Ok s' -> MonoR stk s s'.
 Proof.
   intros f stk IHq. induction ts as [|t r IH]; intros s s' H; cbn [mbp] in H.
   - inversion H. subst. apply MonoR_refl.
@@ -47,7 +47,7 @@ Qed.
 
 Lemma mmono_walk : forall f n stk pd i, mmono_query f ->
   forall cs rtfc cleaned fr ms s d fr' ms' s1,
-    mwalk p tord bord f n stk pd i cs rtfc cleaned fr ms s = Ok (d, fr', ms', s1) -> MonoR (n :: stk) s s1.
+    mwalk p tord bord pord f n stk pd i cs rtfc cleaned fr ms s = Ok (d, fr', ms', s1) -> MonoR (n :: stk) s s1.
 Proof.
   intros f n stk pd i IHq. induction cs as [|cal r IH]; intros rtfc cleaned fr ms s d fr' ms' s1 H; cbn [mwalk] in H.
   - inversion H. subst. apply MonoR_refl.
@@ -60,8 +60,8 @@ Proof.
         destruct (negb (i_value ci =? ov)).
         -- inversion H. subst. apply MonoR_refl.
         -- eapply IH. exact H.
-      * match type of H with context [query_for_o p None tord bord f ?a ?b ?c ?d ?e] =>
-          destruct (query_for_o p None tord bord f a b c d e) as [[[[o fr1] m1] s']| | |] eqn:Eq; try discriminate end.
+      * match type of H with context [query_for_o p None tord bord pord f ?a ?b ?c ?d ?e] =>
+          destruct (query_for_o p None tord bord pord f a b c d e) as [[[[o fr1] m1] s']| | |] eqn:Eq; try discriminate end.
         apply IHq in Eq.
         destruct (get_info s' cal) as [ci|]; [|discriminate].
         destruct (negb (i_value ci =? ov)).
@@ -84,12 +84,12 @@ Proof.
       destruct (fast_path s c' fr1 n) as [[v|sp] fr2] eqn:Ef.
       { inversion H. subst. apply MonoR_refl. }
       pose proof (fast_path_slow _ _ _ _ _ _ Ef) as Hsp.
-      destruct (mq_tfc p tord bord f stk c' sp n s) as [s1| | |] eqn:Et; try discriminate.
+      destruct (mq_tfc p tord bord pord f stk c' sp n s) as [s1| | |] eqn:Et; try discriminate.
       assert (M1 : MonoR stk s s1).
       { unfold mq_tfc in Et. destruct c'; destruct sp; try (inversion Et; subst; apply MonoR_refl);
           (destruct (get_info s n); [|inversion Et; subst; apply MonoR_refl]);
           eapply mmono_tfc; eauto. }
-      destruct (mq_process p tord bord f stk c' sp n s1) as [[marks s2]| | |] eqn:Ep; try discriminate.
+      destruct (mq_process p tord bord pord f stk c' sp n s1) as [[marks s2]| | |] eqn:Ep; try discriminate.
       assert (M2 : MonoR stk s1 s2).
       { assert (Hgen : match get_info s1 n with
                        | Some i => if (i_verified i =? s_ts s1)%N then Ok ([], s1) else mrepair f stk c' n s1
@@ -122,12 +122,12 @@ Proof.
       inversion H. subst.
       assert (K : s_nodes s2 = s_nodes s1 /\ s_ts s2 = s_ts s1 /\ s_log s2 = s_log s1).
       { repeat match type of Epr with (if ?b then _ else _) = _ => destruct b end;
-          try (apply propagate_same in Epr; tauto); try (apply propagate_t_same in Epr; tauto).
+          try (apply propagate_o_same in Epr; tauto); try (apply propagate_t_o_same in Epr; tauto).
         inversion Epr. auto. }
       destruct K as (K1 & K2 & K3). eapply MonoR_exec; eauto. }
     assert (He : mmono_eval (S f)).
     { assert (Hbin : forall stk me a b op fr s o fr' m' s',
-                mbin p tord bord f stk me a b op fr s = Ok (o, fr', m', s') -> MonoR stk s s').
+                mbin p tord bord pord f stk me a b op fr s = Ok (o, fr', m', s') -> MonoR stk s s').
       { intros stk me a b op fr s o fr' m' s' H. unfold mbin in H.
         destruct (meval f stk me a fr s) as [[[[x fr1] m1] s1]| | |] eqn:E1; try discriminate.
         apply IHe in E1. destruct x.
@@ -135,20 +135,20 @@ Proof.
           apply IHe in E2. destruct y; inversion H; subst; eapply MonoR_trans; eauto.
         - inversion H. subst. exact E1. }
       assert (Hread : forall stk me n fr s o fr' m' s',
-                mread p tord bord f stk me n fr s = Ok (o, fr', m', s') -> MonoR stk s s').
+                mread p tord bord pord f stk me n fr s = Ok (o, fr', m', s') -> MonoR stk s s').
       { intros stk me n fr s o fr' m' s' H. unfold mread in H.
         destruct (mquery f stk me (Some fr) n s) as [[[[o1 fr1] m1] s1]| | |] eqn:E1; try discriminate.
         apply IHq in E1. destruct o1 as [[z|]|]; inversion H; subst; exact E1. }
       assert (Hgrp : forall stk me ns acc fr ms s o fr' m' s',
-                mgroup p tord bord f stk me ns acc fr ms s = Ok (o, fr', m', s') -> MonoR stk s s').
+                mgroup p tord bord pord f stk me ns acc fr ms s = Ok (o, fr', m', s') -> MonoR stk s s').
       { intros stk me. induction ns as [|n r IHn]; intros acc fr ms s o fr' m' s' H; cbn [mgroup] in H.
         - inversion H. subst. apply MonoR_refl.
-        - destruct (mread p tord bord f stk me n fr s) as [[[[x fr1] m1] s1]| | |] eqn:E1; try discriminate.
+        - destruct (mread p tord bord pord f stk me n fr s) as [[[[x fr1] m1] s1]| | |] eqn:E1; try discriminate.
           apply Hread in E1. destruct x.
           + eapply MonoR_trans; [exact E1|]. eapply IHn; eauto.
           + inversion H. subst. exact E1. }
       red. intros stk me e fr s o fr' m' s' H.
-      rewrite (eval_S p tord bord f stk me e fr s) in H. destruct e.
+      rewrite (eval_S p tord bord pord f stk me e fr s) in H. destruct e.
       + inversion H. subst. apply MonoR_refl.
       + eapply Hread; eauto.
       + eapply Hbin; eauto.
@@ -158,16 +158,16 @@ Proof.
       + eapply Hbin; eauto.
       + destruct (meval f stk me e1 fr s) as [[[[x fr1] m1] s1]| | |] eqn:E1; try discriminate.
         apply IHe in E1. destruct x.
-        * match type of H with context [eval_o p None tord bord f ?a ?b ?c ?d ?e] =>
-            destruct (eval_o p None tord bord f a b c d e) as [[[[y fr2] m2] s2]| | |] eqn:E2; try discriminate end.
+        * match type of H with context [eval_o p None tord bord pord f ?a ?b ?c ?d ?e] =>
+            destruct (eval_o p None tord bord pord f a b c d e) as [[[[y fr2] m2] s2]| | |] eqn:E2; try discriminate end.
           apply IHe in E2. inversion H. subst. eapply MonoR_trans; eauto.
         * inversion H. subst. exact E1.
-      + destruct (mgroup p tord bord f stk me ns 0 (fr_set_unordered fr true) [] s) as [[[[x fr1] m1] s1]| | |] eqn:E1; try discriminate.
+      + destruct (mgroup p tord bord pord f stk me ns 0 (fr_set_unordered fr true) [] s) as [[[[x fr1] m1] s1]| | |] eqn:E1; try discriminate.
         inversion H. subst. eapply Hgrp; eauto. }
     assert (Hr : mmono_repair (S f)).
     { red. intros stk c n s m' s' H Hn Hnv. rewrite repair_S in H.
       destruct (get_info s n) as [i|] eqn:Eg; [|discriminate]. cbv zeta in H.
-      destruct (mwalk p tord bord f n stk (x_pedantic c) i (all_callees (i_fwd i)) false [] empty_frame [] s)
+      destruct (mwalk p tord bord pord f n stk (x_pedantic c) i (all_callees (i_fwd i)) false [] empty_frame [] s)
         as [[[[d fr1] marks] s1]| | |] eqn:Ew; try discriminate.
       apply (mmono_walk _ _ _ _ _ IHq) in Ew.
       pose proof (mr_stk _ _ _ Ew n (or_introl eq_refl)) as K1.
@@ -176,8 +176,8 @@ Proof.
         rewrite <- (mr_ts _ _ _ Ew). exact J2. }
       apply MonoR_weaken in Ew.
       destruct d as [|[|] cl].
-      - match type of H with context [execute_o p None tord bord f ?a ?b ?c ?d ?e ?g] =>
-          destruct (execute_o p None tord bord f a b c d e g) as [[m2 s2]| | |] eqn:Ex; try discriminate end.
+      - match type of H with context [execute_o p None tord bord pord f ?a ?b ?c ?d ?e ?g] =>
+          destruct (execute_o p None tord bord pord f a b c d e g) as [[m2 s2]| | |] eqn:Ex; try discriminate end.
         inversion H. subst. eapply MonoR_trans; [exact Ew|]. eapply IHx; eauto.
       - inversion H. subst. eapply MonoR_trans; [exact Ew|]. eapply MonoR_clean; eauto.
         rewrite K1. exact Eg.
@@ -185,7 +185,7 @@ Proof.
         rewrite K1. exact Eg. }
     assert (Hb : mmono_backward (S f)).
     { red. intros stk n s s' H Hn Hv. rewrite backward_S in H. cbv zeta in H.
-      destruct (mbp p tord bord f stk (bord s n (proj_callers s n)) s) as [s1| | |] eqn:Eb; try discriminate.
+      destruct (mbp p tord bord pord f stk (bord s n (proj_callers s n)) s) as [s1| | |] eqn:Eb; try discriminate.
       inversion H. subst. pose proof (mmono_bp _ _ IHq _ _ _ Eb) as M1.
       eapply MonoR_trans; [exact M1|]. apply MonoR_clear_pending; [exact Hn|]. eapply sverified_mono; eauto. }
     auto.
